@@ -50,7 +50,9 @@ fn main() {
     mon::set_alloc_active(true);
     #[cfg(all(minicbor_verif, have_step_hook))]
     mon::register_step_hook(minicbor::verif::reset, minicbor::verif::steps);
-    #[cfg(all(minicbor_verif, have_stack_hook))]
+    // not in the AddressSanitizer build: with ASan locals may live in heap-allocated "fake stack"
+    // frames, so the address of a local says nothing about the stack depth
+    #[cfg(all(minicbor_verif, have_stack_hook, not(verif_no_alloc_monitor)))]
     mon::register_stack_hook(minicbor::verif::stack_reset, minicbor::verif::stack_low);
     let wd: u64 = std::env::var("VERIF_WATCHDOG_SECS").ok().and_then(|s| s.parse().ok()).unwrap_or(300);
     if wd > 0 {
